@@ -151,7 +151,7 @@ class Producer(object):
         _logger.debug('Get item from source')
         item = yield from self._item_source.get_item()
 
-        if item:
+        if item is not None:
             yield from self._item_queue.put_item(item)
             return item
 
@@ -164,10 +164,12 @@ class Producer(object):
         while self._running:
             item = yield from self.process_one()
 
-            if not item and self._item_queue.unfinished_items == 0:
+            # Only None means that the source has nothing: an item may be
+            # any object, also one whose truth value is false.
+            if item is None and self._item_queue.unfinished_items == 0:
                 self.stop()
                 break
-            elif not item:
+            elif item is None:
                 yield from self._item_queue.wait_for_worker()
 
     def stop(self):
